@@ -281,6 +281,7 @@ def run(model, col, tier):
     # (a statement dropped by a list production, or a function replaced in the module's list, is never visited: a misplaced
     # break / continue inside it is accepted)
     from .c08 import check_list_accumulation
+    from ..sem import local_env as _le116, resolve as _rs116
 
     check_list_accumulation(model, col, "R11.6", G)
     mod_cls = model.cls(ASTF, "Module")
@@ -296,7 +297,8 @@ def run(model, col, tier):
                 continue
             stored = any(last_attr(c) in ("append", "add") and c.args and unparse(c.args[0]).strip("()") == par for c in calls_on_path(evs)) or \
                 any(e.kind == "stmt" and isinstance(e.node, ast.Assign) and isinstance(e.node.targets[0], ast.Subscript) and unparse(e.node.value) == par and
-                    not isinstance(e.node.targets[0].slice, (ast.Name, ast.Constant)) for e in evs)
+                    # entered under a key derived from the item itself (its name), not at a position found by a search
+                    any(isinstance(x, ast.Name) and x.id == par for x in ast.walk(_rs116(e.node.targets[0].slice, _le116(m, allow_impure=True)))) for e in evs)
             if not stored:
                 lost = [(" ".join(unparse(e.node).split())[:50], e.val) for e in evs if e.kind == "cond"]
         col.check(lost is None, "R11.6", f"{ASTF}::Module.{mname} adds what it is given", "the item is appended / entered under its own name on every returning path",
